@@ -128,7 +128,7 @@ impl<'a> SliceInput<'a> {
 
 impl<'a> BinaryInput for SliceInput<'a> {
     fn read_u8(&mut self) -> Result<u8> {
-        if self.pos == self.data.len() {
+        if self.pos >= self.data.len() {
             Err(Error::InputEndedUnexpectedly)
         } else {
             let result = self.data[self.pos];
